@@ -6,6 +6,9 @@ Streams
                    batch size, PtychographyDatasetRaster._set_intensities_com vectorised and looped, with and
                    without detector mask, vs Model/Origin.lean run at Rat; compared bit-for-bit after rounding
                    the model's exact fraction the way each implementation rounds it
+  comscale float/  intensity scale classes: whole datasets and individual patterns multiplied by 1e-3 … 1e-12, 1e6 (float64
+          exact    weighted-mean oracle, relative tolerance) and by powers of two 2^-60 … 2^20 (result must be bit-identical
+                   to the unscaled one) on all three COM paths, several batch sizes, masks; COM(c*I) = COM(I)
   fit     float    origins exactly on a constant / plane: fit_origin_background (torch, PCA), fit_origin and
                    _set_intensities_com(fit_function=…) (numpy, curve_fit) vs the surface; PCA path vs
                    Model fitPlanePCA with the eigenvector supplied by a float64 eigh
@@ -24,7 +27,7 @@ from fractions import Fraction
 LEVEL = "proof"
 MANIFEST_ENTRY = {
     "category": "proof",
-    "text": "Lean 4 theorems over three separately written executable models of the centre-of-mass code (torch batched calculate_origin, numpy vectorised and looped _set_intensities_com): for every carrier (incl. binary64) the batched result is independent of the batch size and the three paths return the same values; over R each equals the intensity-weighted mean row/column index of the (masked) pattern; a constant fit of constant origins and a PCA plane fit (any null vector of the scatter form; unconditional on every scan raster of at least 2x2 positions, plane_exact_raster) or least-squares fit (any minimiser; instantiated for the modelled _plane/_parabola/_bezier_two families) of origins lying exactly on a plane/surface return that surface; shift_origin_to with integer origin is exactly the circular roll (bilinear weights (1,0,0,0), periodic index). Tied to the code on every run by bit-exact comparison on integer-valued patterns for every batch size, masks, non-square shapes; the two real classes (direct-ptychography origin model, ptychography dataset model incl. preprocess()) are additionally compared with each other on the same datasets (<= 1 float32 ulp).",
+    "text": "Lean 4 theorems over three separately written executable models of the centre-of-mass code (torch batched calculate_origin, numpy vectorised and looped _set_intensities_com): for every carrier (incl. binary64) the batched result is independent of the batch size and the three paths return the same values; over R each equals the intensity-weighted mean row/column index of the (masked) pattern and is invariant under multiplying every pattern by its own non-zero factor (com_scale_invariant); a constant fit of constant origins and a PCA plane fit (any null vector of the scatter form; unconditional on every scan raster of at least 2x2 positions, plane_exact_raster) or least-squares fit (any minimiser; instantiated for the modelled _plane/_parabola/_bezier_two families) of origins lying exactly on a plane/surface return that surface; shift_origin_to with integer origin is exactly the circular roll (bilinear weights (1,0,0,0), periodic index). Tied to the code on every run by bit-exact comparison on integer-valued patterns for every batch size, masks, non-square shapes; the two real classes (direct-ptychography origin model, ptychography dataset model incl. preprocess()) are additionally compared with each other on the same datasets (<= 1 float32 ulp).",
     "note": "Proved: batch/path independence, COM = weighted mean, constant/plane exactness, integer shift = roll, all on the model. Measured only: torch.linalg.eigh and scipy curve_fit reach the fitted surface to float tolerance (PCA 5e-4 rel. float32, curve_fit 1e-6), grid_sample un-normalisation in float32 (1e-5*max). The curve_fit variants plane/parabola/bezier_two are modelled (surfaceF), covered in Lean by lsq_minimiser_exact / lsq_variants_exact (any least-squares minimiser reproduces data lying on the family) and exercised on exact surfaces with mask=None, all-True and partial masks. Patterns with zero total (masked) intensity are outside the property (positive intensities).",
     "technique": "Lean 4 proof (list induction, field algebra over R, floor/emod arithmetic) + exact model-vs-implementation correspondence",
 }
@@ -33,7 +36,8 @@ RULE = ("com stream: one case = one 4-D dataset (scan sr x sc, detector h x w, i
 TRUSTED = ["IEEE float32/float64 division is correctly rounded (torch, NumPy) — used to round the model's exact fraction",
            "torch.linalg.eigh / scipy.optimize.curve_fit (the eigenvector / minimiser is a parameter of the model; its quality is measured)",
            "torch.nn.functional.grid_sample semantics (bilinear, align_corners=True, zero padding) as modelled"]
-ASSUMPTIONS = ["partial position masks are generated for the plane and constant fits only (for parabola/bezier_two the unmasked positions need not determine the surface at the masked ones); the robust=True option of fit_origin is not exercised",
+ASSUMPTIONS = ["scaled data stay inside the float32 normal range (factors 1e-30 … 1e12 on pixel values 1 … 1000); the scale stream's tolerance is 1e-4 of the detector extent for decimal factors (every pixel is rounded once) and bit equality for powers of two",
+               "partial position masks are generated for the plane and constant fits only (for parabola/bezier_two the unmasked positions need not determine the surface at the masked ones); the robust=True option of fit_origin is not exercised",
                "intensities are positive integers <= 1000 on detectors <= 10x10 so that every partial sum is an exactly representable integer; mask values are multiples of 1/2",
                "plane fits need scan positions that are not collinear (sr, sc >= 2); 1 x n scans are used for the constant fit and the COM streams only",
                "fit tolerances: 5e-4*max(1,|z|) on float32 paths (torch PCA, com_fit), 1e-6*max(1,|z|) on fit_origin's float64 output; shift: 1e-5*max|I|"]
@@ -288,6 +292,131 @@ def com_case(ctx, drv, ds, batch_sizes=None):
                               required="equal up to one float32 rounding")
     ctx.sample({"stream": "com", "shape": [sr, sc, h, w], "mask": ds["mask_kind"], "pattern_kind": ds["kind"],
                 "first_pattern_exact_com": [str(exact[0][0]), str(exact[0][1])], "batch_sizes": [b for b in bs][:8]}, limit=2)
+
+
+# ---------------------------------------------------------------------------------------
+# stream: comscale — intensity scale classes.  COM(c*I) = COM(I): the centre of mass does not depend on the unit of
+# the intensities.  Whole datasets and individual patterns are multiplied by decimal factors (float32 rounding of every
+# pixel: judged against a float64 weighted mean of the stored float32 values, relative tolerance) and by powers of two
+# (exact scaling of every partial sum: the result must be BIT-IDENTICAL to the unscaled one), staying inside the float32
+# normal range.
+
+DEC_SCALES = [1.0, 1e-3, 1e-6, 1e-9, 1e-12, 1e6]
+POW2_SCALES = [0, -20, -40, -60, 20]           # exponents
+SCALE_TOL = 1e-4                               # of the detector extent (float32 accumulation of <= 100 positive terms)
+
+
+def gen_scale(rng):
+    ds = gen_dataset(rng)
+    n = ds["sr"] * ds["sc"]
+    kind = rng.weighted([("dec_dataset", 3), ("dec_patterns", 3), ("pow2_dataset", 2), ("pow2_patterns", 2)])
+    if kind == "dec_dataset":
+        f = rng.choice(DEC_SCALES[1:])
+        fac = [f] * n
+    elif kind == "dec_patterns":
+        base = rng.choice(DEC_SCALES)
+        fac = [base * (rng.choice([1e-3, 1e-6, 1e-9, 1e-12]) if rng.chance(0.35) else 1.0) for _ in range(n)]
+        if all(x == base for x in fac):
+            fac[rng.below(n)] = base * 1e-9
+    elif kind == "pow2_dataset":
+        fac = [rng.choice(POW2_SCALES[1:])] * n
+    else:
+        fac = [rng.choice(POW2_SCALES) for _ in range(n)]
+        if all(x == 0 for x in fac):
+            fac[rng.below(n)] = -40
+    # keep every pixel (values 1..1000) inside the float32 normal range
+    if kind.startswith("dec"):
+        fac = [min(max(x, 1e-30), 1e12) for x in fac]
+    return {"ds": ds, "kind": kind, "fac": fac}
+
+
+def scale_case(ctx, drv, sc_):
+    import numpy as np
+    ds, kind, fac = sc_["ds"], sc_["kind"], sc_["fac"]
+    arr, mask = to_np(ds)
+    sr, sc, h, w = ds["sr"], ds["sc"], ds["h"], ds["w"]
+    n = sr * sc
+    pow2 = kind.startswith("pow2")
+    f = np.array([np.float32(2.0) ** int(e) for e in fac] if pow2 else [np.float32(x) for x in fac], dtype=np.float32).reshape(sr, sc, 1, 1)
+    scaled = (arr * f).astype(np.float32)                      # what the library is given
+    case = {"stream": "comscale", "sc": sc_}
+    ext = float(max(h, w))
+    m64 = None if mask is None else mask.astype(np.float64)
+
+    def oracle64(a):
+        a = a.astype(np.float64) if m64 is None else a.astype(np.float64) * m64
+        tot = a.sum(axis=(-2, -1))
+        r = (a * np.arange(h)[:, None]).sum(axis=(-2, -1)) / tot
+        c = (a * np.arange(w)[None, :]).sum(axis=(-2, -1)) / tot
+        return np.stack([r, c], -1).reshape(n, 2)
+    want = oracle64(scaled)
+    tot_min = float((scaled if mask is None else scaled * mask).sum(axis=(-2, -1)).min())
+    ctx.dist[f"comscale:{kind}"] += 1
+    ctx.dist["comscale:min pattern total " + ("< 1e-7" if tot_min < 1e-7 else "< 1" if tot_min < 1 else ">= 1")] += 1
+    ctx.dist[f"comscale:mask={ds['mask_kind']}"] += 1
+
+    def paths(a, masked_for_torch):
+        out = {}
+        pd = make_raster(a)
+        for path, vec in (("vec", True), ("loop", False)):
+            pd._set_intensities_com(a.copy(), dp_mask=None if mask is None else mask.copy(), fit_function="none", vectorized_calculation=vec)
+            g = np.asarray(pd.com_measured, dtype=np.float64)
+            out[path] = np.stack([g[0].ravel(), g[1].ravel()], -1)
+        om = make_origin_model(masked_for_torch)
+        for b in (None, 1, max(1, n - 1)):
+            om.calculate_origin(max_batch_size=b)
+            out[f"torch(b={b})"] = om.origin_measured.detach().cpu().numpy().astype(np.float64).copy()
+        return out
+    got_scaled = paths(scaled, scaled if mask is None else (scaled * mask[None, None]).astype(np.float32))
+    got_plain = paths(arr, arr if mask is None else (arr * mask[None, None]).astype(np.float32))
+    for name, g in got_scaled.items():
+        ctx.count()
+        ctx.mark(("comscale", sr, sc, h, w, kind, ds["mask_kind"], name.split("(")[0]))
+        bad_fin = not np.all(np.isfinite(g))
+        dev = float("inf") if bad_fin else float(np.abs(g - want).max()) / ext
+        ctx.stat_max("comscale_vs_float64_weighted_mean_rel", dev)
+        label = "looped" if name == "loop" else "vectorised" if name == "vec" else "torch"
+        if not dev <= SCALE_TOL:
+            i = int(np.argmax(np.abs(np.nan_to_num(g - want, nan=np.inf)).max(1)))
+            ctx.pred_fail(f"com-{label}-not-weighted-mean-scaled", f"centre of mass ({name}) of a pattern in small/large intensity units is not its intensity-weighted mean coordinate", dict(case, path=name),
+                          observed={"pattern": i, "com": g[i].tolist(), "pattern_total_intensity": float(scaled.reshape(n, -1)[i].sum()), "factor": fac[i]},
+                          required={"weighted_mean_float64": want[i].tolist(), "tolerance": SCALE_TOL * ext})
+        # scale invariance against the same path on the unscaled data
+        p = got_plain[name]
+        if pow2:
+            if not np.array_equal(g, p):
+                i = int(np.argmax(np.abs(np.nan_to_num(g - p, nan=np.inf)).max(1)))
+                ctx.pred_fail(f"com-{label}-not-scale-invariant", f"centre of mass ({name}) changes when a pattern is multiplied by a power of two (exact scaling: the result must be bit-identical)", dict(case, path=name),
+                              observed={"pattern": i, "scaled_by_2**": fac[i], "com_scaled": g[i].tolist()}, required={"com_unscaled": p[i].tolist()})
+        else:
+            d2 = float("inf") if bad_fin else float(np.abs(g - p).max()) / ext
+            ctx.stat_max("comscale_scaled_vs_unscaled_rel", d2)
+            if not d2 <= SCALE_TOL:
+                i = int(np.argmax(np.abs(np.nan_to_num(g - p, nan=np.inf)).max(1)))
+                ctx.pred_fail(f"com-{label}-not-scale-invariant", f"centre of mass ({name}) is not invariant under multiplying the intensities by a constant", dict(case, path=name),
+                              observed={"pattern": i, "factor": fac[i], "com_scaled": g[i].tolist()}, required={"com_unscaled": p[i].tolist(), "tolerance": SCALE_TOL * ext})
+    # the three paths agree with each other on the scaled data as well
+    ref = got_scaled["vec"]
+    for name, g in got_scaled.items():
+        if name != "vec" and not (np.all(np.isfinite(g)) and float(np.abs(g - ref).max()) / ext <= SCALE_TOL):
+            ctx.pred_fail("com-paths-disagree-scaled", f"{name} and the vectorised dataset-model path disagree on data in small/large intensity units", dict(case, path=name),
+                          observed={"max_abs_dev": float(np.abs(np.nan_to_num(g - ref, nan=np.inf)).max())}, required={"tolerance": SCALE_TOL * ext})
+    # model: the exact-carrier COM of the integer dataset is the COM of every scaled copy (theorem com_scale_invariant);
+    # tie the implementation on the scaled data to it
+    flat = [v for pat in ds["data"] for row in pat for v in row]
+    mask_req = None if ds["mask_halves"] is None else [f"{v}/2" for row in ds["mask_halves"] for v in row]
+    m = drv.ask({"op": "com", "sr": sr, "sc": sc, "h": h, "w": w, "b": 1, "data": flat, "mask": mask_req})
+    if "ok" not in m:
+        raise HarnessError(f"driver error {m}")
+    mg = m["ok"]["vec"]
+    model = np.array([[float(frac_of(mg[0][a][b])), float(frac_of(mg[1][a][b]))] for a in range(sr) for b in range(sc)])
+    tol_model = SCALE_TOL if pow2 else 5e-4       # decimal factors round every pixel (rel. 6e-8 each); far below either tolerance
+    for name, g in got_scaled.items():
+        d = float(np.abs(np.nan_to_num(g - model, nan=np.inf)).max()) / ext
+        ctx.stat_max("comscale_model_vs_impl_rel", d if np.isfinite(d) else 1e30)
+        if not d <= tol_model:
+            ctx.disagree("comscale", dict(case, path=name), model.tolist(), g.tolist(), note=f"model COM of the unscaled integer data (scale invariant) vs {name} on the scaled data")
+    ctx.sample({"stream": "comscale", "shape": [sr, sc, h, w], "kind": kind, "factors": fac[:4], "min_pattern_total": tot_min}, limit=9)
 
 
 # ---------------------------------------------------------------------------------------
@@ -588,6 +717,10 @@ def run(ctx):
         for _ in range(ctx.n(300, 2000)):
             ds = gen_dataset(rng)
             guarded(ctx, com_case, {"stream": "com", "ds": ds}, ctx, drv, ds)
+        rng = ctx.rng.fork(6)
+        for _ in range(ctx.n(120, 800)):
+            sc_ = gen_scale(rng)
+            guarded(ctx, scale_case, {"stream": "comscale", "sc": sc_}, ctx, drv, sc_)
         rng = ctx.rng.fork(2)
         for _ in range(ctx.n(150, 1000)):
             fc = gen_fit(rng)
@@ -619,6 +752,8 @@ def replay(ctx, rep):
             com_case(ctx, drv, case["ds"], batch_sizes=[case["b"]] if "b" in case else None)
         elif st == "fit":
             fit_case(ctx, drv, case["fc"])
+        elif st == "comscale":
+            scale_case(ctx, drv, case["sc"])
         elif st == "fitvar":
             fitvar_case(ctx, drv, case["fv"])
         elif st == "shift":
